@@ -128,6 +128,13 @@ func Gen(r *sx.Rng, idx int, focus string) sx.Tree {
 		kids := append([]sx.Tree{b.At(0), b.At(1), a.At(2), a.At(3)}, b.Kids[4:]...)
 		cfgs[1] = sx.T(kids...)
 	}
+	if len(cfgs) >= 2 && ((focus == "C16" || focus == "C04") && r.Chance(25) || r.Chance(6)) {
+		// a disabled root listed before an enabled discarding one with a small buffer: its discards are its own
+		a, b := cfgs[0], cfgs[1]
+		ka := append([]sx.Tree{a.At(0), a.At(1), a.At(2), a.At(3), sx.L(1)}, a.Kids[5:]...)
+		kb := append([]sx.Tree{b.At(0), b.At(1), sx.L(1), sx.L(1), sx.L(0), sx.L(1)}, b.Kids[6:]...)
+		cfgs[0], cfgs[1] = sx.T(ka...), sx.T(kb...)
+	}
 	lockPct := 50
 	switch focus {
 	case "C17":
